@@ -2,7 +2,7 @@
 
 ENGINES = [
     {'name': 'explore', 'path': 'lib/vt/explore.py',
-     'serves_properties': ['C01', 'C02', 'C03', 'C04', 'C05', 'C06', 'C07',
+     'serves_properties': ['C01', 'C02', 'C03', 'C04', 'C06', 'C07',
                            'C08', 'C09', 'C10', 'C11', 'C12', 'C13', 'C14',
                            'C15', 'C16', 'C17', 'C18', 'C19', 'C20'],
      'kind_free_text': 'bounded exhaustive enumeration driver: shards a finite '
@@ -16,6 +16,24 @@ NOTES = ('Every check executes the implementation in /repo/src (working tree) '
          'DESIGN.md.')
 
 CHECKS = [
+    {'id': 'C05', 'engine': 'explore', 'level': 'exploration',
+     'design_ref': 'DESIGN.md §4 C05',
+     'technique': 'bounded exhaustive enumeration of layer graphs x hook '
+                  'subsets x outcome sequences on the real Runner, with a '
+                  'per-test bracket monitor over the hook trace',
+     'text': 'Every DAG of <=3 layers (class and instance), every subset of '
+             'layers carrying testSetUp/testTearDown, every single outcome '
+             'kind (16 kinds incl. decorator/class skip, skips raised in '
+             'setUp/body, xfail, unexpected success, failing subtests, '
+             'setUp/tearDown/cleanup errors, two-event tests) and every '
+             'sequence of two (thorough: three) outcomes, with --repeat 1/2, '
+             'is executed; for each test the testSetUp sequence must be '
+             'exactly the hook-bearing closure bases-first before the '
+             "test's setUp, testTearDown its exact mirror after tearDown, "
+             'depth 0/1 per layer, nothing outside test brackets or stacks.',
+     'note': 'Only CPython 3.12.1 (where unittest skips startTest for '
+             'decorator-skipped tests); sequences longer than 3 and graphs '
+             'beyond 3 layers are outside the bound.'},
     {'id': 'C01', 'engine': 'explore', 'level': 'exploration',
      'design_ref': 'DESIGN.md §4 C01',
      'technique': 'bounded exhaustive enumeration of layer-graph x fault x '
@@ -47,7 +65,7 @@ CHECKS = [
              'nodes use whatever id() order the interpreter gives.'},
 ]
 
-_PENDING = ['C02', 'C03', 'C04', 'C05', 'C06', 'C07', 'C08', 'C09',
+_PENDING = ['C02', 'C03', 'C04', 'C06', 'C07', 'C08', 'C09',
             'C10', 'C11', 'C12', 'C13', 'C14', 'C15', 'C16', 'C17', 'C18',
             'C19']
 _DONE = {c['id'] for c in CHECKS}
